@@ -399,6 +399,11 @@ def main():
         extra = [s for s in sequences(3, 4) if len(s) == 4 and [op for op, _ in s[:3]] == ["put"] * 3
                  and sorted(key for _, key in s[:3]) == [0, 1, 2]
                  and s[3] in (("remove", 0), ("remove", 2))]
+        # ... and an absent third key removed from a two-key dict, then a re-put (a removal that
+        # must leave the dict untouched, observed structurally and by the next operation)
+        extra += [(("put", 0), ("put", 1), ("remove", 2)),
+                  (("put", 0), ("put", 1), ("remove", 2), ("put", 0)),
+                  (("put", 0), ("put", 1), ("remove", 2), ("put", 1))]
         jobs += [(s, 3, timeout_ms, 400000, part) for s in extra for part in level0_partitions(3)]
     with mp.Pool(16) as pool:
         results = pool.map(check_sequence, jobs, chunksize=1)
@@ -422,7 +427,7 @@ def main():
             rep.inconc(inc)
     rep.functions = ["%dict.{new,put,remove,get,has?,count,entries} and every helper they call (std/dict.qv, std/num.qv, std/int.qv) as compiled into the driver"]
     rep.bounds = {"distinct keys": k, "operations per history": L, "histories": len(seqs) + len(extra),
-                  "additional histories (quick)": "%d histories over 3 keys: three inserts of distinct keys, then any one operation" % len(extra),
+                  "additional histories (quick)": "%d histories over 3 keys: three inserts then one removal; two inserts, removal of an absent third key, a re-insert" % len(extra),
                   "hashes": "every assignment of 32-bit hashes to the keys (free bit-vectors)",
                   "values": "free 64-bit integers"}
     rep.extra["histories"] = len(seqs)
